@@ -179,6 +179,11 @@ def run(chk, w):
                         else:
                             chk.ok("C18-BND", 1)
 
+    # ---- CAP
+    from . import c12 as _c12
+    reach = {n for n in P.reachable_functions(sorted(set(encoders) | set(S.constructors))) if n in P.functions and P.functions[n].blocks and P.functions[n].relfile.startswith("src/")}
+    _c12.cap_rule(chk, P, reach, "C18-CAP", 2)
+
     # ---- RANGE
     chk.rule("C18-RANGE", "a documented parameter range ('range A...B', 'divisible by N') equals the set of values the encoder accepts")
     docs = documented_ranges(w.repo)
